@@ -18,7 +18,10 @@ def drv_binary(ctx, race=False, tags=vlib.TAG, groups=("drv",), name="drv"):
 def _run(ctx, binary, fam, behs, env=None, timeout=None):
     if timeout is None:
         steps = sum(len(b) for b in behs)
-        timeout = int(60 + steps * float(os.environ.get("VERIF_STEP_S", "0.004")))
+        per = float(os.environ.get("VERIF_STEP_S", "0.004"))
+        if "_race" in os.path.basename(binary):
+            per *= 25          # the whole-image diff after every step is an order of magnitude slower when instrumented
+        timeout = int(60 + steps * per * 4)
     fin, fout = ctx.path("beh_%s.ndjson" % fam), ctx.path("res_%s.ndjson" % fam)
     vlib.write_ndjson(fin, behs)
     if os.path.exists(fout):
@@ -27,6 +30,9 @@ def _run(ctx, binary, fam, behs, env=None, timeout=None):
     if env:
         e.update(env)
     rc, out = ctx.run_bin(binary, "^TestVerifReplay$", env=e, timeout=timeout)
+    if rc == 124 or "panic: test timed out" in out:
+        # the replay as a whole ran out of its time budget (slow machine, instrumented build): never a verdict
+        raise vlib.Broken("replay of family %s (%d behaviours) exceeded its time budget of %d s" % (fam, len(behs), timeout))
     res = vlib.read_ndjson(fout) if os.path.exists(fout) else []
     summ = [r for r in res if r.get("summary")]
     return rc, out, [r for r in res if not r.get("summary")], (summ[0] if summ else None)
@@ -155,6 +161,15 @@ def replay_family(ctx, fam, behs, env=None, race=False, exhaustive_depth=None, b
             prefix = behs[: mm["beh"] + 1]
             rc3, out3, mm3, s3 = _run(ctx, binary, fam, prefix, env)
             if not [m for m in mm3 if m["beh"] == mm["beh"] and m["world"] == mm["world"]]:
+                probe = {"family": fam, "kind": "mismatch", "got": mm["got"], "want": mm["want"], "op": mm["op"], "key": mm["key"], "world": mm["world"]}
+                if classify:
+                    classify(probe)
+                if probe.get("finding") == "F5":
+                    # F5 depends on the moment: the relocated stack check also "fails" while a preemption request is pending
+                    # (the runtime sets stackguard0 = stackPreempt), so an occurrence need not reproduce. It is a listed finding.
+                    probe["note"] = "not reproduced on re-run (timing dependent: pending preemption request / stack headroom)"
+                    ctx.violation("after %s on %s: %s required=%r real=%r (seen once, timing dependent)" % (mm["op"], mm["world"], mm["key"], mm["want"], mm["got"]), probe)
+                    continue
                 raise vlib.Broken("mismatch reproduced neither in isolation nor on the same sequence: %s" % json.dumps(mm))
             seq = prefix
         ro = {"family": fam, "kind": "mismatch", "env": env or {}, "world": mm["world"], "step": mm["step"], "op": mm["op"],
